@@ -46,6 +46,8 @@ def benign():
         for line in open(f):
             m = re.match(r"#\s*property:\s*(.*)", line)
             if m: props = [x.strip() for x in m.group(1).split(",")]
+        if props == ["ALL"]:
+            props = [c["property_id"] for c in json.load(open(os.path.join(V, "MANIFEST.json")))["checks"]]
         l.append(("benign/" + os.path.basename(f)[:-6], f, props, None))
     return l
 
